@@ -23,6 +23,14 @@ CofRowVerdict(r) ==
              bad("distance-congruent", LAMBDA x : (x.dist - (CofPosition(x.b) - CofPosition(r.a))) % 12 = 0),
              bad("lands", LAMBDA x : x.land = x.b % 12) >>)
 
+(* keys carried by bars and sequences, transposed through Bar.transpose / Sequence.transpose and read back through the
+   bar attribute and the key-signature messages of both views *)
+EntryVerdict(r) ==
+    Fails(<< <<"no-error", r.err = "">>,
+             <<"every-carried-key-transposed", \A j \in DOMAIN r.outs :
+                    r.outs[j][1] \in Keys => r.outs[j][2] \in TransposeSet(r.outs[j][1], r.i)>>,
+             <<"keys-present", r.err = "" => Len(r.outs) >= 8>> >>)
+
 (* a history of transpositions replayed on the real code: the specification takes Transpose(i)
    and binds the logged result when it is one the specification allows *)
 TracePath ==
@@ -47,6 +55,7 @@ TraceTable ==
              fails |-> CASE Line.kind = "tk" -> TkVerdict(Line)
                          [] Line.kind = "scale" -> ScaleVerdict(Line)
                          [] Line.kind = "cof" -> CofRowVerdict(Line)
+                         [] Line.kind = "entry" -> EntryVerdict(Line)
                          [] OTHER -> <<"unknown-line-kind">>])
 
 TraceInit == TraceStart /\ start = "C" /\ key = "C" /\ acc = 0
